@@ -39,6 +39,7 @@ pub use crate::util::rust_util::rev_group::verif_hooks as rev_group;
 /// `policy::sft_map::space_map` (private module): index arithmetic of the 64-bit SFT space map.
 #[cfg(target_pointer_width = "64")]
 pub use crate::policy::sft_map::verif_hooks_space_map as sft_space_map;
+pub use crate::policy::sft_map::SFTMap;
 /// `util::heap::layout::map64` (private module).
 #[cfg(target_pointer_width = "64")]
 pub use crate::util::heap::layout::verif_hooks_map64 as map64;
